@@ -6,12 +6,13 @@ set -u
 WT=$1; K=$2; shift 2
 export CARGO_NET_OFFLINE=true
 cd "$WT" || exit 2
-git checkout -q -- . ; rm -rf fast-tlsh/tests
+DD=${DEMO_DIR:-fast-tlsh/tests}; CW=${DEMO_CWD:-fast-tlsh}   # where the demo file goes / where cargo runs (serde demos: DEMO_DIR=fast-tlsh/serde-tests/tests DEMO_CWD=.)
+git checkout -q -- . ; rm -rf fast-tlsh/tests "$DD/demo_$K.rs"
 git apply "out/$K/patch.diff" || { echo "APPLY-FAILED"; exit 2; }
 echo "== suite with change"; cargo test --workspace --no-fail-fast --offline 2>&1 | grep -E "^test result" | head -3
-mkdir -p fast-tlsh/tests; cp "out/$K/demo.rs" "fast-tlsh/tests/demo_$K.rs"
+mkdir -p "$DD"; cp "out/$K/demo.rs" "$DD/demo_$K.rs"
 if [ $# -eq 0 ]; then set -- test --offline --test "demo_$K"; fi
-echo "== demo with change: cargo $*"; (cd fast-tlsh && cargo "$@" 2>&1 | grep -E "^test result|error(\[|:)|Undefined Behavior|panicked" | head -5)
+echo "== demo with change: cargo $*"; (cd "$CW" && cargo "$@" 2>&1 | grep -E "^test result|error(\[|:)|Undefined Behavior|panicked" | head -5)
 git checkout -q -- .
-echo "== demo without change"; (cd fast-tlsh && cargo "$@" 2>&1 | grep -E "^test result|error(\[|:)|Undefined Behavior|panicked" | head -5)
-rm -rf fast-tlsh/tests; git status --short | grep -v '^?? out/' | head
+echo "== demo without change"; (cd "$CW" && cargo "$@" 2>&1 | grep -E "^test result|error(\[|:)|Undefined Behavior|panicked" | head -5)
+rm -rf fast-tlsh/tests "$DD/demo_$K.rs"; git status --short | grep -v '^?? out/' | head
